@@ -18,18 +18,22 @@ EXTENDS Integers, Sequences, FiniteSets, TLC, Json
 CONSTANTS Tier, MaxDepth
 
 \* tier "deep": a near-valid universe (no illegal names) enumerated to a larger depth
+\* tier "core": two parameters, only well-formed lists with matching arities - the sequences that
+\* differ are the ORDER and NUMBER of functions / derivatives / x / initial guess; explored deepest
 Names == IF Tier = "thorough" THEN {"a", "b", "c", "z", "a,b"}
-         ELSE IF Tier = "deep" THEN {"a", "b"} ELSE {"a", "b", "z", "a,b"}
+         ELSE IF Tier \in {"deep", "core"} THEN {"a", "b"} ELSE {"a", "b", "z", "a,b"}
 HasComma(n) == n = "a,b"
-ModelLists == IF Tier = "deep" THEN {<<"a">>, <<"a", "b">>, <<"b", "a">>}
+ModelLists == IF Tier = "core" THEN {<<"a", "b">>}
+              ELSE IF Tier = "deep" THEN {<<"a">>, <<"a", "b">>, <<"b", "a">>}
               ELSE {<<>>, <<"a">>, <<"a", "b">>, <<"b", "a">>, <<"a", "a">>, <<"a,b">>}
                    \cup (IF Tier = "thorough" THEN {<<"a", "b", "c">>} ELSE {})
-FunLists == IF Tier = "deep" THEN {<<"a">>, <<"b">>, <<"a", "b">>, <<"b", "a">>}
+FunLists == IF Tier = "core" THEN {<<"a">>, <<"b">>, <<"a", "b">>}
+            ELSE IF Tier = "deep" THEN {<<"a">>, <<"b">>, <<"a", "b">>, <<"b", "a">>}
             ELSE {<<>>, <<"a">>, <<"b">>, <<"a", "b">>, <<"b", "a">>, <<"a", "a">>, <<"z">>, <<"a,b">>}
                  \cup (IF Tier = "thorough" THEN {<<"c">>, <<"c", "a">>, <<"a", "b", "c">>, <<"a", "z">>} ELSE {})
 Arities == IF Tier = "thorough" THEN {1, 2, 3} ELSE {1, 2}
 DerivNames == Names \ {"a,b"}
-InitLens == IF Tier = "deep" THEN 1..2 ELSE 0..(IF Tier = "thorough" THEN 4 ELSE 3)
+InitLens == IF Tier = "core" THEN {2} ELSE IF Tier = "deep" THEN 1..2 ELSE 0..(IF Tier = "thorough" THEN 4 ELSE 3)
 
 Range(s) == {s[i] : i \in 1..Len(s)}
 Dup(s) == Cardinality(Range(s)) # Len(s)
@@ -171,9 +175,11 @@ Simple(kind, len) ==
   /\ UNCHANGED everUsed
   /\ calls' = Append(calls, <<kind, <<>>, len>>)
 
+\* in the core tier closures always have the arity of the function they belong to
+ArityOK(ar, len) == Tier # "core" \/ ar = len
 AnyCall == \/ \E m \in ModelLists : New(m)
-           \/ \E fp \in FunLists, ar \in Arities : Function(fp, ar)
-           \/ \E n \in DerivNames, ar \in Arities : PartialDeriv(n, ar)
+           \/ \E fp \in FunLists, ar \in Arities : ArityOK(ar, Len(fp)) /\ Function(fp, ar)
+           \/ \E n \in DerivNames, ar \in Arities : ArityOK(ar, IF grp.open THEN Len(grp.fp) ELSE 1) /\ PartialDeriv(n, ar)
            \/ Simple("I", 0) \/ Simple("X", 0) \/ \E l \in InitLens : Simple("P", l)
 
 \* the enumeration stops one call after the builder entered its (absorbing) Error state
